@@ -32,7 +32,7 @@ def is_primary(w: Write) -> bool:
 INFRA_CLASSES = {'XMLChildContainer', 'XSDElement', 'XSDSequence', 'XSDChoice', 'XSDGroup', 'XSDTree', 'Tree', 'TestTree', 'XSDAttribute',
                  'DuplicationXSDSequence', 'XMLChildContainerFactory', 'TreeRepresentation', 'XSDTreeElement'}
 STRUCTURE_FUNCS = {'XMLChildContainer._add_duplication_parent', 'XMLChildContainer.duplicate'}
-SHAPE_MARKERS = ('isinstance(', '.tag !=', '.tag ==', 'hasattr(', "'XMLElement' not in", "'XSDComplexType' not in")
+SHAPE_MARKERS = ('isinstance(', '.tag !=', '.tag ==', 'hasattr(', "'XMLElement' not in", "'XSDComplexType' not in", "'XMLElement' in", "'XSDComplexType' in")
 
 
 def defensive_guard(r: RaiseSite) -> bool:
@@ -173,13 +173,13 @@ class Atom:
             rn = self._idx(callee).get(r.node)
             recv = unparse(node.func.value)
             if rn is not None:
-                gs = [t for t, lab in dom.guards_of(g, rn) if t.kind == 'test' and lab == 'T']
+                gs = [e_ for _t, e_, _txt, lab in dom.guard_views(g, rn) if lab == 'T']
                 cg_ = cfg_of(caller.node)
                 cn = self._idx(caller).get(node)
-                for t in gs:
-                    if isinstance(t.ast, ast.Compare) and isinstance(t.ast.ops[0], ast.NotEq) and unparse(t.ast.left).startswith('self.'):
-                        want = f"{recv}.{unparse(t.ast.left)[5:]} == {unparse(t.ast.comparators[0])}"
-                        if cn is not None and any(t2.kind == 'test' and lab2 == 'T' and unparse(t2.ast) == want for t2, lab2 in dom.guards_of(cg_, cn)):
+                for e_ in gs:
+                    if isinstance(e_, ast.Compare) and isinstance(e_.ops[0], ast.NotEq) and unparse(e_.left).startswith('self.'):
+                        want = f"{recv}.{unparse(e_.left)[5:]} == {unparse(e_.comparators[0])}"
+                        if cn is not None and any(lab2 == 'T' and txt2 == want for _t2, _e2, txt2, lab2 in dom.guard_views(cg_, cn)):
                             return "the call is guarded by the negation of the callee's rejecting test"
         # (iv) the path walk's conflict test is pre-validated by the leaf selector: every reaching definition of the receiver of
         #      `_update_requirements_in_path()` is drawn from the selector's result (or a fresh duplicate), or membership-tested against it
@@ -264,9 +264,9 @@ class Atom:
                         tested = True
                 # the test sits on the path from this definition only: check reachability d -> test -> call
                 for t in g.stmt_nodes():
-                    if t.kind == 'test' and isinstance(t.ast, ast.Compare) and isinstance(t.ast.ops[0], ast.NotIn) and unparse(t.ast.left) == var and \
-                            isinstance(t.ast.comparators[0], ast.Name) and t.ast.comparators[0].id in sel_results and dom.branch_raises(g, t, 'T') and \
-                            g.path_avoiding(d, cn, avoid=[t]) is None:
+                    if t.kind == 'test' and isinstance(t.ast, ast.Compare) and isinstance(t.ast.ops[0], ast.In) and unparse(t.ast.left) == var and \
+                            isinstance(t.ast.comparators[0], ast.Name) and t.ast.comparators[0].id in sel_results and dom.branch_raises(g, t, 'F') and \
+                            g.path_avoiding(d, cn, avoid=[t]) is None:          # canonical form of `if x not in sel: raise`
                         tested = True
                 if tested:
                     continue
